@@ -1,62 +1,8 @@
 // ---------------------------------------------------------------------------------------------
-// prelude: parser_common.rs — specification vocabulary shared by the two rowan-based parsers
-// (src/lossless.rs and debian-control/src/lossless/relations.rs): text conservation.
-// Nothing here is trusted: spec functions and lemmas verified on every run. The unit provides
-// `SyntaxKind` and the extracted `Parser { tokens, builder, errors, .. }`.
+// prelude: parser_common.rs — text-conservation frame of the two rowan-based parsers (verified
+// definitions only; needs token_text.rs, rowan_model.rs and the unit's extracted `Parser`).
 // ---------------------------------------------------------------------------------------------
-
 pub type SyntaxNode = rowan::SyntaxNode;
-
-/// text of the token stack in consumption order (the stack is reversed: its last element is next)
-pub open spec fn stack_text(toks: Seq<(SyntaxKind, String)>) -> Seq<char>
-    decreases toks.len()
-{
-    if toks.len() == 0 { Seq::empty() } else { toks.last().1@ + stack_text(toks.drop_last()) }
-}
-
-/// text of a token list in file order
-pub open spec fn fwd_text(toks: Seq<(SyntaxKind, String)>) -> Seq<char>
-    decreases toks.len()
-{
-    if toks.len() == 0 { Seq::empty() } else { fwd_text(toks.drop_last()) + toks.last().1@ }
-}
-
-pub open spec fn cur_kind(toks: Seq<(SyntaxKind, String)>) -> Option<SyntaxKind> {
-    if toks.len() > 0 { Some(toks.last().0) } else { None }
-}
-
-pub proof fn lemma_stack_text_reverse(toks: Seq<(SyntaxKind, String)>)
-    ensures stack_text(toks.reverse()) == fwd_text(toks)
-    decreases toks.len()
-{
-    if toks.len() == 0 {
-        assert(toks.reverse() =~= toks);
-    } else {
-        let r = toks.reverse();
-        // r.last() == toks[0]; r.drop_last() == toks.skip(1).reverse()
-        assert(r.last() == toks[0]);
-        assert(r.drop_last() =~= toks.skip(1).reverse());
-        lemma_stack_text_reverse(toks.skip(1));
-        lemma_fwd_text_front(toks);
-    }
-}
-
-pub proof fn lemma_fwd_text_front(toks: Seq<(SyntaxKind, String)>)
-    requires toks.len() > 0
-    ensures fwd_text(toks) == toks[0].1@ + fwd_text(toks.skip(1))
-    decreases toks.len()
-{
-    if toks.len() == 1 {
-        assert(toks.drop_last() =~= Seq::<(SyntaxKind, String)>::empty());
-        assert(toks.skip(1) =~= Seq::<(SyntaxKind, String)>::empty());
-        assert(fwd_text(toks) =~= toks[0].1@ + fwd_text(toks.skip(1)));
-    } else {
-        lemma_fwd_text_front(toks.drop_last());
-        assert(toks.drop_last().skip(1) =~= toks.skip(1).drop_last());
-        assert(toks.skip(1).last() == toks.last());
-        assert(fwd_text(toks) =~= toks[0].1@ + fwd_text(toks.skip(1)));
-    }
-}
 
 impl Parser {
     /// all text the parser is responsible for: what the builder already holds, then the stack
